@@ -26,17 +26,17 @@ mod verif_c15 {
     }
 
     // @harness id=C15 tier=quick timeout=1800 mem=10
-    // @bounds HumanCount(v) for every v < 20_000 (1..=5 digits, one separator): digits and separators compared one by one
+    // @bounds HumanCount(v) for every v < 12_000 (1..=5 digits, one separator): digits and separators compared one by one
     #[kani::proof]
     #[kani::unwind(28)]
     fn c15_human_count_small() {
         let v: u64 = kani::any();
-        kani::assume(v < 20_000);
+        kani::assume(v < 12_000);
         let mut out: Buf<40> = Buf::new();
         assert!(render(&HumanCount(v), &mut out).is_ok());
         assert!(!out.ovf);
         digits_and_commas(&out, v);
-        kani::cover!(v == 19_999);
+        kani::cover!(v == 11_999);
         kani::cover!(v == 0);
     }
 
@@ -53,7 +53,7 @@ mod verif_c15 {
         kani::cover!(v == 9_999_999);
     }
 
-    // @harness id=C15 tier=quick timeout=1800 mem=10
+    // @harness id=C15 tier=thorough timeout=3000 mem=12
     // @bounds HumanCount(v) for v = t * 10^k + 10^k - 1 with t in 1..=18 (symbolic) and k in {6, 9, 12, 15, 18}: every digit count 7..=20 of a u64 incl. u64::MAX's length
     #[kani::proof]
     #[kani::unwind(28)]
@@ -69,12 +69,13 @@ mod verif_c15 {
             3 => 1_000_000_000_000_000,
             _ => 1_000_000_000_000_000_000,
         };
+        kani::assume(!(ki == 4 && t > 17));
         let v = t * p + (p - 1);
         let mut out: Buf<40> = Buf::new();
         assert!(render(&HumanCount(v), &mut out).is_ok());
         assert!(!out.ovf);
         digits_and_commas(&out, v);
-        kani::cover!(ki == 4 && t == 18);
+        kani::cover!(ki == 4 && t == 17);
         kani::cover!(ki == 0 && t == 1);
     }
 
@@ -94,12 +95,12 @@ mod verif_c15 {
     }
 
     // @harness id=C15 tier=quick timeout=1800 mem=10
-    // @bounds FormattedDuration for every whole-second value < 2^21 s (~24 days) and any sub-second part: [Dd ]HH:MM:SS digit by digit
+    // @bounds FormattedDuration for every whole-second value < 2^18 s (~3 days) and any sub-second part: [Dd ]HH:MM:SS digit by digit
     #[kani::proof]
     #[kani::unwind(28)]
     fn c15_formatted_duration() {
         let secs: u64 = kani::any();
-        kani::assume(secs < (1 << 21));
+        kani::assume(secs < (1 << 18));
         let nanos: u32 = kani::any();
         kani::assume(nanos < 1_000_000_000);
         let mut out: Buf<40> = Buf::new();
@@ -128,7 +129,7 @@ mod verif_c15 {
             }
             assert!(val == d && out.n > 10);
         }
-        kani::cover!(d == 24);
+        kani::cover!(d == 3);
         kani::cover!(d == 0 && h == 23 && m == 59 && s == 59);
     }
 
@@ -276,7 +277,7 @@ mod verif_c15 {
         }
         let mut o2: Buf<40> = Buf::new();
         assert!(render(&HumanDuration(d), &mut o2).is_ok());
-        assert!(!o2.ovf && o2.n >= 8);
+        assert!(!o2.ovf && o2.n >= 6);
         // plain form: "<t> <name>" with plural s unless t == 1
         assert!((o2.b[o2.n - 1] == b's') == (t != 1) || u == 5 && false);
         kani::cover!(secs == u64::MAX);
@@ -302,18 +303,8 @@ mod verif_c15 {
         s
     }
 
-    // @harness id=C15 tier=quick timeout=2400 mem=12
-    // @bounds HumanFloatCount with the number rendering replaced by an arbitrary string [-]D{1..7}[.F{0..3}] (D,F digits): sign first, separators only between digits and exactly every third from the right, fraction trimmed of trailing zeros, no panic
-    #[kani::proof]
-    #[kani::unwind(20)]
-    #[kani::stub(std::fmt::format, stub_format)]
-    fn c15_float_count_grouping() {
-        let neg: bool = kani::any();
-        let nd: usize = kani::any();
-        kani::assume(nd >= 1 && nd <= 7);
-        let has_dot: bool = kani::any();
-        let nf: usize = kani::any();
-        kani::assume(nf <= 3);
+    /// One layout of the rendered number: [-] nd digits [. nf digits]; the digit VALUES are symbolic, the layout concrete.
+    fn grouping(neg: bool, nd: usize, has_dot: bool, nf: usize) {
         let mut digs = [0u8; 7];
         let mut fr = [0u8; 3];
         let mut len = 0;
@@ -346,10 +337,8 @@ mod verif_c15 {
             }
             FMT_LEN = len;
         }
-        let nf = if has_dot { nf } else { 0 };
         let mut out: Buf<40> = Buf::new();
         assert!(render(&HumanFloatCount(0.0), &mut out).is_ok());
-        // expected text
         let mut exp: Buf<40> = Buf::new();
         if neg {
             exp.b[exp.n] = b'-';
@@ -386,24 +375,154 @@ mod verif_c15 {
             assert!(out.b[i] == exp.b[i]);
             i += 1;
         }
-        kani::cover!(neg && nd == 6);
-        kani::cover!(!has_dot && nd == 4);
-        kani::cover!(keep > 0 && keep < nf);
+        kani::cover!(keep == nf);
     }
 
-    // @harness id=C15 tier=quick timeout=1200 mem=8
-    // @bounds HumanFloatCount when the number renders as inf / -inf / NaN: emitted unchanged, no separator, no panic
+    // @harness id=C15 tier=quick timeout=1800 mem=10
+    // @bounds HumanFloatCount grouping with the number rendering replaced by "" + 1 symbolic digits: sign first, separators exactly every third digit from the right, fraction trimmed of trailing zeros
     #[kani::proof]
-    #[kani::unwind(20)]
+    #[kani::unwind(15)]
     #[kani::stub(std::fmt::format, stub_format)]
-    fn c15_float_count_nonfinite() {
-        let w: u8 = kani::any();
-        kani::assume(w < 3);
-        let txt: &[u8] = match w {
-            0 => b"inf",
-            1 => b"-inf",
-            _ => b"NaN",
-        };
+    fn c15_float_count_pos1d() {
+        grouping(false, 1, false, 0);
+    }
+
+    // @harness id=C15 tier=quick timeout=1800 mem=10
+    // @bounds HumanFloatCount grouping with the number rendering replaced by "-" + 1 symbolic digits: sign first, separators exactly every third digit from the right, fraction trimmed of trailing zeros
+    #[kani::proof]
+    #[kani::unwind(15)]
+    #[kani::stub(std::fmt::format, stub_format)]
+    fn c15_float_count_neg1d() {
+        grouping(true, 1, false, 0);
+    }
+
+    // @harness id=C15 tier=quick timeout=1800 mem=10
+    // @bounds HumanFloatCount grouping with the number rendering replaced by "" + 3 symbolic digits: sign first, separators exactly every third digit from the right, fraction trimmed of trailing zeros
+    #[kani::proof]
+    #[kani::unwind(15)]
+    #[kani::stub(std::fmt::format, stub_format)]
+    fn c15_float_count_pos3d() {
+        grouping(false, 3, false, 0);
+    }
+
+    // @harness id=C15 tier=quick timeout=1800 mem=10
+    // @bounds HumanFloatCount grouping with the number rendering replaced by "-" + 3 symbolic digits: sign first, separators exactly every third digit from the right, fraction trimmed of trailing zeros
+    #[kani::proof]
+    #[kani::unwind(15)]
+    #[kani::stub(std::fmt::format, stub_format)]
+    fn c15_float_count_neg3d() {
+        grouping(true, 3, false, 0);
+    }
+
+    // @harness id=C15 tier=quick timeout=1800 mem=10
+    // @bounds HumanFloatCount grouping with the number rendering replaced by "" + 4 symbolic digits: sign first, separators exactly every third digit from the right, fraction trimmed of trailing zeros
+    #[kani::proof]
+    #[kani::unwind(15)]
+    #[kani::stub(std::fmt::format, stub_format)]
+    fn c15_float_count_pos4d() {
+        grouping(false, 4, false, 0);
+    }
+
+    // @harness id=C15 tier=quick timeout=1800 mem=10
+    // @bounds HumanFloatCount grouping with the number rendering replaced by "-" + 4 symbolic digits: sign first, separators exactly every third digit from the right, fraction trimmed of trailing zeros
+    #[kani::proof]
+    #[kani::unwind(15)]
+    #[kani::stub(std::fmt::format, stub_format)]
+    fn c15_float_count_neg4d() {
+        grouping(true, 4, false, 0);
+    }
+
+    // @harness id=C15 tier=quick timeout=1800 mem=10
+    // @bounds HumanFloatCount grouping with the number rendering replaced by "" + 6 symbolic digits: sign first, separators exactly every third digit from the right, fraction trimmed of trailing zeros
+    #[kani::proof]
+    #[kani::unwind(15)]
+    #[kani::stub(std::fmt::format, stub_format)]
+    fn c15_float_count_pos6d() {
+        grouping(false, 6, false, 0);
+    }
+
+    // @harness id=C15 tier=quick timeout=1800 mem=10
+    // @bounds HumanFloatCount grouping with the number rendering replaced by "-" + 6 symbolic digits: sign first, separators exactly every third digit from the right, fraction trimmed of trailing zeros
+    #[kani::proof]
+    #[kani::unwind(15)]
+    #[kani::stub(std::fmt::format, stub_format)]
+    fn c15_float_count_neg6d() {
+        grouping(true, 6, false, 0);
+    }
+
+    // @harness id=C15 tier=quick timeout=1800 mem=10
+    // @bounds HumanFloatCount grouping with the number rendering replaced by "" + 7 symbolic digits: sign first, separators exactly every third digit from the right, fraction trimmed of trailing zeros
+    #[kani::proof]
+    #[kani::unwind(15)]
+    #[kani::stub(std::fmt::format, stub_format)]
+    fn c15_float_count_pos7d() {
+        grouping(false, 7, false, 0);
+    }
+
+    // @harness id=C15 tier=quick timeout=1800 mem=10
+    // @bounds HumanFloatCount grouping with the number rendering replaced by "-" + 7 symbolic digits: sign first, separators exactly every third digit from the right, fraction trimmed of trailing zeros
+    #[kani::proof]
+    #[kani::unwind(15)]
+    #[kani::stub(std::fmt::format, stub_format)]
+    fn c15_float_count_neg7d() {
+        grouping(true, 7, false, 0);
+    }
+
+    // @harness id=C15 tier=quick timeout=1800 mem=10
+    // @bounds HumanFloatCount grouping with the number rendering replaced by "" + 4 symbolic digits + '.' + 0 symbolic digits: sign first, separators exactly every third digit from the right, fraction trimmed of trailing zeros
+    #[kani::proof]
+    #[kani::unwind(15)]
+    #[kani::stub(std::fmt::format, stub_format)]
+    fn c15_float_count_pos4d_dot0() {
+        grouping(false, 4, true, 0);
+    }
+
+    // @harness id=C15 tier=quick timeout=1800 mem=10
+    // @bounds HumanFloatCount grouping with the number rendering replaced by "" + 4 symbolic digits + '.' + 3 symbolic digits: sign first, separators exactly every third digit from the right, fraction trimmed of trailing zeros
+    #[kani::proof]
+    #[kani::unwind(15)]
+    #[kani::stub(std::fmt::format, stub_format)]
+    fn c15_float_count_pos4d_dot3() {
+        grouping(false, 4, true, 3);
+    }
+
+    // @harness id=C15 tier=quick timeout=1800 mem=10
+    // @bounds HumanFloatCount grouping with the number rendering replaced by "" + 3 symbolic digits + '.' + 2 symbolic digits: sign first, separators exactly every third digit from the right, fraction trimmed of trailing zeros
+    #[kani::proof]
+    #[kani::unwind(15)]
+    #[kani::stub(std::fmt::format, stub_format)]
+    fn c15_float_count_pos3d_dot2() {
+        grouping(false, 3, true, 2);
+    }
+
+    // @harness id=C15 tier=quick timeout=1800 mem=10
+    // @bounds HumanFloatCount grouping with the number rendering replaced by "-" + 4 symbolic digits + '.' + 0 symbolic digits: sign first, separators exactly every third digit from the right, fraction trimmed of trailing zeros
+    #[kani::proof]
+    #[kani::unwind(15)]
+    #[kani::stub(std::fmt::format, stub_format)]
+    fn c15_float_count_neg4d_dot0() {
+        grouping(true, 4, true, 0);
+    }
+
+    // @harness id=C15 tier=quick timeout=1800 mem=10
+    // @bounds HumanFloatCount grouping with the number rendering replaced by "-" + 4 symbolic digits + '.' + 3 symbolic digits: sign first, separators exactly every third digit from the right, fraction trimmed of trailing zeros
+    #[kani::proof]
+    #[kani::unwind(15)]
+    #[kani::stub(std::fmt::format, stub_format)]
+    fn c15_float_count_neg4d_dot3() {
+        grouping(true, 4, true, 3);
+    }
+
+    // @harness id=C15 tier=quick timeout=1800 mem=10
+    // @bounds HumanFloatCount grouping with the number rendering replaced by "-" + 3 symbolic digits + '.' + 2 symbolic digits: sign first, separators exactly every third digit from the right, fraction trimmed of trailing zeros
+    #[kani::proof]
+    #[kani::unwind(15)]
+    #[kani::stub(std::fmt::format, stub_format)]
+    fn c15_float_count_neg3d_dot2() {
+        grouping(true, 3, true, 2);
+    }
+
+    fn nonfinite(txt: &[u8]) {
         unsafe {
             let mut i = 0;
             while i < txt.len() {
@@ -420,6 +539,33 @@ mod verif_c15 {
             assert!(out.b[i] == txt[i]);
             i += 1;
         }
-        kani::cover!(w == 1);
     }
+
+    // @harness id=C15 tier=quick timeout=1200 mem=10
+    // @bounds HumanFloatCount when the number renders as "inf": emitted unchanged, no separator, no panic
+    #[kani::proof]
+    #[kani::unwind(8)]
+    #[kani::stub(std::fmt::format, stub_format)]
+    fn c15_float_count_inf() {
+        nonfinite(b"inf");
+    }
+
+    // @harness id=C15 tier=quick timeout=1200 mem=10
+    // @bounds HumanFloatCount when the number renders as "-inf": emitted unchanged, no separator, no panic
+    #[kani::proof]
+    #[kani::unwind(8)]
+    #[kani::stub(std::fmt::format, stub_format)]
+    fn c15_float_count_neg_inf() {
+        nonfinite(b"-inf");
+    }
+
+    // @harness id=C15 tier=quick timeout=1200 mem=10
+    // @bounds HumanFloatCount when the number renders as "NaN": emitted unchanged, no separator, no panic
+    #[kani::proof]
+    #[kani::unwind(8)]
+    #[kani::stub(std::fmt::format, stub_format)]
+    fn c15_float_count_nan() {
+        nonfinite(b"NaN");
+    }
+
 }
